@@ -182,6 +182,11 @@ def _all_semi_directed_paths_graph(
                 visited.popitem()  # maybe other ways to child
         else:  # len(visited) == cutoff:
             for target in (targets & (set(nbrs) | {nbr})) - set(visited.keys()):
+                # the remaining neighbors have not passed the arrowhead test yet
+                if G.has_edge(target, prev_node, directed_edge_name) or G.has_edge(
+                    target, prev_node, bidirected_edge_name
+                ):
+                    continue
                 yield list(visited) + [target]
             stack.pop()
             visited.popitem()
